@@ -18,7 +18,7 @@ X02 C07 h_step
 X03 C14 h_resume
 X04 C16 h_diffbase
 X05 C14 h_resume
-X06 C06 h_history h_daemon_release
+X06 C06 h_step
 X07 C07 h_worker
 X08 C08 h_plan
 X09 C09 h_stop_stage
@@ -51,6 +51,15 @@ S01 C01 h_stream
 T01 C01 h_stream
 S19 C19 h_orchestrator
 S20 C20 h_lifecycle
+Y04 C04 h_field_view
+Y05 C05 h_detect
+Y06 C06 h_history
+Y11 C11 h_table
+Y12 C12 h_auth
+Y13 C13 h_event
+Y19 C19 h_adjust_peering
+U13 C13 h_cluster
+V20 C13 h_cluster
 EOF
 git -C /repo worktree prune
 cat "$out"
